@@ -3,6 +3,7 @@ package props
 
 import (
 	"fmt"
+	"os"
 	"strings"
 	"sync"
 
@@ -61,3 +62,5 @@ func short(s string) string {
 	}
 	return q
 }
+
+var fwStderr = os.Stderr
